@@ -749,6 +749,7 @@ def _format_string(value: bytes) -> bytes:
         or value.endswith((b" ", b"\t"))
         or b"#" in value
         or b";" in value
+        or b"\r" in value
     ):
         return b'"' + _escape_value(value) + b'"'
     else:
@@ -822,7 +823,6 @@ def _parse_string(value: bytes) -> bytes:
 def _escape_value(value: bytes) -> bytes:
     """Escape a value."""
     value = value.replace(b"\\", b"\\\\")
-    value = value.replace(b"\r", b"\\r")
     value = value.replace(b"\n", b"\\n")
     value = value.replace(b"\t", b"\\t")
     value = value.replace(b'"', b'\\"')
